@@ -232,7 +232,10 @@ def make_doc(rng, lang, quick):
     doc = []
     for _ in range(rng.randint(1, 3)):
         n = rng.randint(1, 5 if quick else 7)
-        if rng.random() < 0.6:
+        if rng.random() < 0.06:
+            # sentences of more than ten tokens: span offsets and ids with two digits
+            base = gen.deep_chain(rng, lang, depth=rng.randint(10, 13) if quick else rng.randint(10, 30))
+        elif rng.random() < 0.6:
             base = gen.licensed_tree(rng, lang, n)
         else:
             base = gen.rand_tree(rng, lang, n)
